@@ -418,3 +418,30 @@ def run(ctx):
     if nshift < 10:
         raise AnalysisBroken("only %d shift terms found in the integer decoders" % nshift)
 
+    if ctx.tier == "thorough":
+        d5(ctx, rep)
+
+
+def d5(ctx, rep):
+    """thorough tier: orc/orcbytecodes.h is byte for byte what tools/generate-bytecode --header (built from this tree in the
+    scratch build directory) writes: the ORC_BC_* names applications and the decoder use are those of the current table."""
+    import os, subprocess
+    bdir = ctx.builddir
+    p = subprocess.run(["ninja", "-C", bdir, "tools/generate-bytecode"], stdout=subprocess.PIPE, stderr=subprocess.STDOUT, text=True)
+    gen = os.path.join(bdir, "tools", "generate-bytecode")
+    if p.returncode != 0 or not os.path.exists(gen):
+        raise AnalysisBroken("could not build generate-bytecode in scratch: " + p.stdout[-400:])
+    env = dict(os.environ, LD_LIBRARY_PATH=os.path.join(bdir, "orc"))
+    out = os.path.join(ctx.scratch, "regen_orcbytecodes.h")
+    r = subprocess.run([gen, "--header", "-o", out], env=env, stdout=subprocess.PIPE, stderr=subprocess.STDOUT, text=True)
+    if r.returncode != 0 or not os.path.exists(out):
+        raise AnalysisBroken("generate-bytecode failed: " + r.stdout[-300:])
+    a = open(out).read().split("\n")
+    b = open(os.path.join(ctx.repo, "orc/orcbytecodes.h")).read().split("\n")
+    diff = [(i + 1, x, y) for i, (x, y) in enumerate(zip(a, b)) if x != y]
+    if len(a) != len(b) and not diff:
+        diff = [(min(len(a), len(b)) + 1, "<%d lines>" % len(a), "<%d lines>" % len(b))]
+    rep.check(not diff, "D5-REGENERATE", "orc/orcbytecodes.h", "identical-to-generator-output",
+              "orc/orcbytecodes.h is what generate-bytecode --header writes (%d lines)" % len(b),
+              "orc/orcbytecodes.h differs from the generator's output, first at line %s: generated `%s`, checked in `%s`" % (diff[0] if diff else (0, "", "")))
+
